@@ -338,3 +338,39 @@ func c11PartialKey(ctx *core.Ctx, cc *CC) {
 		}
 	}
 }
+
+// c11SyntacticKind — C11.R12 (who-may-call): (*Type).IsCustom only says "not a
+// base type and not a container" of the *written* type; it is true for
+// structs, enums and every typedef alike. Code generators must decide on the
+// resolved kind (IsStruct / IsEnum / IsUnion / UnderlyingType); only the
+// documentation generators and the parser may use the syntactic test.
+func c11SyntacticKind(ctx *core.Ctx, cc *CC) {
+	ctx.Rule("C11.R12", "who-may-call: the syntactic test (*Type).IsCustom is not used by the code generators (go, java, dart, python), which must decide on the resolved kind", 1)
+	ic := cc.FnOpt("parser", "(*Type).IsCustom")
+	if ic == nil {
+		ctx.Discharge("C11.R12", "parser.(*Type).IsCustom", "", "the syntactic test does not exist")
+		return
+	}
+	total, bad := 0, 0
+	for _, fn := range cc.Fns {
+		for _, c := range ssax.Calls(fn) {
+			if c.Static != ic {
+				continue
+			}
+			total++
+			pk := ""
+			if fn.Pkg != nil {
+				pk = fn.Pkg.Pkg.Name()
+			}
+			switch pk {
+			case "golang", "java", "dartlang", "python", "generator":
+				bad++
+				ctx.Violate("C11.R12", QName(fn)+" › uses the syntactic IsCustom", cc.IPos(c.Instr),
+					"a code generator decides how to handle a type with IsCustom, which holds for enums and for typedefs of anything as well as for structs: e.g. an enum payload is passed where a thrift.TStruct is required and the generated Go does not build")
+			}
+		}
+	}
+	if bad == 0 {
+		ctx.Discharge("C11.R12", "code generators do not call IsCustom", "compiler/generator", sprintf("%d call site(s), all in documentation generators / parser", total))
+	}
+}
